@@ -70,6 +70,11 @@ def run_real(c, make):
     calls = [0]
     cbs = []
     late = bool(c.get('latectx'))
+    # on a Parser the histories may run under the parser's OWN event names (its constructor has had a chance to prepare them)
+    own = ['callFunction', 'callVariable', 'callCellValue', 'callRangeValue'] if c.get('ownnames') else None
+
+    def nm(k):
+        return own[k] if own is not None and k < len(own) else 'n%d' % k
     rets = bool(c.get('rets'))
 
     def do(op):
@@ -79,16 +84,16 @@ def run_real(c, make):
             if late:
                 # the host binds a context mapping that is still empty and fills it afterwards: it is THAT mapping which is bound
                 ctx = {}
-                sub('n%d' % op[1], get(op[2]), ctx)
+                sub(nm(op[1]), get(op[2]), ctx)
                 ctx['c'] = op[3]
             else:
-                sub('n%d' % op[1], get(op[2]), {'c': op[3]})
+                sub(nm(op[1]), get(op[2]), {'c': op[3]})
         elif k == 'off':
-            e.off('n%d' % op[1])
+            e.off(nm(op[1]))
         elif k == 'offcb':
-            e.off('n%d' % op[1], get(op[2]))
+            e.off(nm(op[1]), get(op[2]))
         elif k == 'emit':
-            e.emit('n%d' % op[1], op[1], op[2])
+            e.emit(nm(op[1]), op[1], op[2])
 
     def mk(i):
         def cb(name, arg, c=None):
@@ -135,8 +140,8 @@ def run_real(c, make):
     del log[:]
     depth[0] = fuel  # bodies off during the probes
     for n in range(c['names']):
-        e.emit('n%d' % n, n, PROBE)
-        e.emit('n%d' % n, n, PROBE)
+        e.emit(nm(n), n, PROBE)
+        e.emit(nm(n), n, PROBE)
     return main, list(log)
 
 
@@ -251,7 +256,7 @@ def gen_case(rng, maxlen):
         bodies.append([gen_op(rng, names, ncb) for _ in range(k)])
     ops = [gen_op(rng, names, ncb) for _ in range(rng.randrange(1, maxlen + 1))]
     return {'kind': 'script', 'on': rng.choice(['emitter', 'emitter', 'parser']), 'fuel': fuel,
-            'flavour': rng.choice(['function', 'function', 'bound', 'wrapped']), 'latectx': rng.random() < 0.4, 'rets': rng.random() < 0.4,
+            'flavour': rng.choice(['function', 'function', 'bound', 'wrapped']), 'latectx': rng.random() < 0.4, 'rets': rng.random() < 0.4, 'ownnames': rng.random() < 0.5,
             'names': names, 'bodies': bodies, 'ops': ops}
 
 
@@ -274,7 +279,7 @@ CORE = [
 def cases(rng, ctx):
     thorough = ctx['tier'] == 'thorough'
     out = [dict(c) for c in CORE] + [dict(c, flavour='bound') for c in CORE] + [dict(c, flavour='wrapped') for c in CORE] + \
-        [dict(c, latectx=True) for c in CORE] + [dict(c, rets=True) for c in CORE]
+        [dict(c, latectx=True) for c in CORE] + [dict(c, rets=True) for c in CORE] + [dict(c, on='parser', ownnames=True) for c in CORE]
     n = (20000 if thorough else 1500) * ctx['scale']
     maxlen = 60 if thorough else 30
     for _ in range(n):
